@@ -341,6 +341,48 @@ class FileScanHelper:
             next_file, next_file_name, fix_debug, fix_file_debug, fix_list, collect_list
         )
 
+        # The file in next_file_two may be a temporary file holding the result of the
+        # token fixes.  Whatever happens from here on, it must not be left behind.
+        try:
+            (
+                did_anything_get_fixed,
+                collected_line_triggers,
+            ) = self.__process_file_fix_pass_lines(
+                next_file,
+                next_file_two,
+                next_file_name,
+                actual_tokens,
+                did_any_tokens_get_fixed,
+                fix_debug,
+                fix_file_debug,
+                fix_nolog_rescan,
+                fix_list,
+                collect_list,
+            )
+        finally:
+            if next_file_two != next_file:
+                if fix_debug and fix_file_debug:
+                    print(f"Remove:{next_file_two}")
+                os.remove(next_file_two)
+
+        return did_anything_get_fixed, collected_token_triggers, collected_line_triggers
+
+    # pylint: enable=too-many-arguments, too-many-locals
+
+    # pylint: disable=too-many-arguments, too-many-locals
+    def __process_file_fix_pass_lines(
+        self,
+        next_file: str,
+        next_file_two: str,
+        next_file_name: str,
+        actual_tokens: List[MarkdownToken],
+        did_any_tokens_get_fixed: bool,
+        fix_debug: bool,
+        fix_file_debug: bool,
+        fix_nolog_rescan: bool,
+        fix_list: List[str],
+        collect_list: List[str],
+    ) -> Tuple[bool, Set[str]]:
         # If tokens are returned, then no changes were made due to tokens and the
         # tokenized list can be reused without any worry of changes.
         if actual_tokens:
@@ -374,21 +416,18 @@ class FileScanHelper:
 
         # If anything was fixed, copy the temporary file on top of the original file
         # that was scanned.
-        did_any_lines_get_fixed = bool(this_file_fix_line_records)
-        did_anything_get_fixed = did_any_lines_get_fixed or did_any_tokens_get_fixed
-        if did_anything_get_fixed:
+        try:
+            did_any_lines_get_fixed = bool(this_file_fix_line_records)
+            did_anything_get_fixed = did_any_lines_get_fixed or did_any_tokens_get_fixed
+            if did_anything_get_fixed:
+                if fix_debug and fix_file_debug:
+                    print(f"Copy {temporary_line_file_name} to {next_file}")
+                shutil.copyfile(temporary_line_file_name, next_file)
+        finally:
             if fix_debug and fix_file_debug:
-                print(f"Copy {temporary_line_file_name} to {next_file}")
-            shutil.copyfile(temporary_line_file_name, next_file)
-        if fix_debug and fix_file_debug:
-            print(f"Remove:{temporary_line_file_name}")
-        os.remove(temporary_line_file_name)
-        if next_file_two != next_file:
-            if fix_debug and fix_file_debug:
-                print(f"Remove:{next_file_two}")
-            os.remove(next_file_two)
-
-        return did_anything_get_fixed, collected_token_triggers, collected_line_triggers
+                print(f"Remove:{temporary_line_file_name}")
+            os.remove(temporary_line_file_name)
+        return did_anything_get_fixed, collected_line_triggers
 
     # pylint: enable=too-many-arguments, too-many-locals
 
@@ -524,43 +563,51 @@ class FileScanHelper:
         source_provider = FileSourceProvider(next_file)
         with tempfile.NamedTemporaryFile() as temp_output:
             temporary_file_name = temp_output.name
-        with open(temporary_file_name, "wt", encoding="utf-8") as source_file:
-            POGGER.info("Scanning before line-by-line fixes.")
-            fix_context = self.__plugins.starting_new_file(
-                next_file_name,
-                fix_mode=True,
-                temp_output=source_file,
-                fix_token_map=None,
-            )
-            report_context = self.__plugins.starting_new_file(
-                next_file_name, constraint_id_list=collect_list
-            )
-            context_map: Dict[str, PluginScanContext] = {
-                i: fix_context for i in fix_list
-            }
-            for i in collect_list:
-                context_map[i] = report_context
+        try:
+            with open(temporary_file_name, "wt", encoding="utf-8") as source_file:
+                POGGER.info("Scanning before line-by-line fixes.")
+                fix_context = self.__plugins.starting_new_file(
+                    next_file_name,
+                    fix_mode=True,
+                    temp_output=source_file,
+                    fix_token_map=None,
+                )
+                report_context = self.__plugins.starting_new_file(
+                    next_file_name, constraint_id_list=collect_list
+                )
+                context_map: Dict[str, PluginScanContext] = {
+                    i: fix_context for i in fix_list
+                }
+                for i in collect_list:
+                    context_map[i] = report_context
 
-            # Due to context required to process the line requirements, we need go
-            # through all the tokens first, before processing the lines.
-            #
-            # Basically, to allow any of the rules to build context applicable to
-            # the line being scanned, we rescan the tokens to present an updated
-            # picture of the tokens.
-            for next_token in actual_tokens:
-                POGGER.info("Processing tokens: $", next_token)
-                self.__plugins.next_token(fix_context, next_token, context_map)
+                # Due to context required to process the line requirements, we need go
+                # through all the tokens first, before processing the lines.
+                #
+                # Basically, to allow any of the rules to build context applicable to
+                # the line being scanned, we rescan the tokens to present an updated
+                # picture of the tokens.
+                for next_token in actual_tokens:
+                    POGGER.info("Processing tokens: $", next_token)
+                    self.__plugins.next_token(fix_context, next_token, context_map)
 
-            POGGER.info("Completed token scanning.")
-            self.__process_lines_in_file(
-                source_provider, fix_context, next_file_name, context_map
+                POGGER.info("Completed token scanning.")
+                self.__process_lines_in_file(
+                    source_provider, fix_context, next_file_name, context_map
+                )
+                this_file_fix_line_records = fix_context.fix_line_records
+                if this_file_fix_line_records and fix_debug:
+                    for next_record in fix_context.fix_line_records:
+                        print(next_record)
+
+            self.__print_file_in_debug_mode(
+                fix_debug, fix_file_debug, temporary_file_name
             )
-            this_file_fix_line_records = fix_context.fix_line_records
-            if this_file_fix_line_records and fix_debug:
-                for next_record in fix_context.fix_line_records:
-                    print(next_record)
+        except Exception:
+            if os.path.exists(temporary_file_name):
+                os.remove(temporary_file_name)
+            raise
 
-        self.__print_file_in_debug_mode(fix_debug, fix_file_debug, temporary_file_name)
         return (
             this_file_fix_line_records,
             temporary_file_name,
@@ -791,12 +838,19 @@ class FileScanHelper:
             print(f"MARKDOWN:{ParserHelper.make_value_visible(markdown_from_tokens)}")
         with tempfile.NamedTemporaryFile() as temp_output:
             temporary_file_name = temp_output.name
-        with open(temporary_file_name, "wt", encoding="utf-8") as source_file:
-            source_file.write(markdown_from_tokens)
-            next_file = temporary_file_name
-            actual_tokens.clear()
+        try:
+            with open(temporary_file_name, "wt", encoding="utf-8") as source_file:
+                source_file.write(markdown_from_tokens)
+                next_file = temporary_file_name
+                actual_tokens.clear()
 
-        self.__print_file_in_debug_mode(fix_debug, fix_file_debug, temporary_file_name)
+            self.__print_file_in_debug_mode(
+                fix_debug, fix_file_debug, temporary_file_name
+            )
+        except Exception:
+            if os.path.exists(temporary_file_name):
+                os.remove(temporary_file_name)
+            raise
         return next_file, actual_tokens, did_any_tokens_get_fixed
 
     # pylint: enable=too-many-arguments
